@@ -218,7 +218,7 @@ func (f *ReceiveForm) TransitionNP(process *Process, re *RuntimeEnvironment) {
 
 			new_body := f.continuation_e
 			new_body.Substitute(f.payload_c, message.Channel1)
-			new_body.Substitute(f.continuation_c, NewSelf(message.Channel1.Ident))
+			new_body.Substitute(f.continuation_c, NewSelf(""))
 
 			process.finishedRule(RCV, "[receive, provider]", "(p)", re)
 			// Terminate the current provider to replace them with the one being received
@@ -362,7 +362,7 @@ func (f *CaseForm) TransitionNP(process *Process, re *RuntimeEnvironment) {
 					// Found a matching label
 					found = true
 					new_body = j.continuation_e
-					new_body.Substitute(j.payload_c, NewSelf(message.Channel1.Ident))
+					new_body.Substitute(j.payload_c, NewSelf(""))
 					break
 				}
 			}
@@ -761,7 +761,7 @@ func (f *ShiftForm) TransitionNP(process *Process, re *RuntimeEnvironment) {
 			}
 
 			new_body := f.continuation_e
-			new_body.Substitute(f.continuation_c, NewSelf(message.Channel1.Ident))
+			new_body.Substitute(f.continuation_c, NewSelf(""))
 
 			process.finishedRule(SHF, "[shift, provider]", "(p)", re)
 			// Terminate the current provider to replace them with the one being shifted
